@@ -114,6 +114,16 @@ def run_hier(tier, acc):
         if rp["evaluations"] == 0:
             raise core.ToolError("vacuous model run: no hierarchy vector was emitted")
         _validate_hier(acc, trace, rp, "hier-replay")
+    if tier == "thorough":
+        # model only, one token deeper (measured: 409 737 states in 2 min 46 s, no error)
+        with open(os.path.join(core.SPEC, "MC_HierGen_deep.cfg"), "w") as f:
+            f.write("SPECIFICATION Spec\nCONSTANTS MaxLen = 6\n Profile = \"hier\"\n EnvSet = \"hier\"\n ExtraCheck <- HierCheck\nCHECK_DEADLOCK FALSE\n")
+        r = core.run_tlc("MC_HierGen", "MC_HierGen_deep.cfg", "C12_hier_deep", workers=14, timeout=3000, coverage=False, heap="16g")
+        if not r.ok:
+            raise core.ToolError(f"Hierarchy model (MaxLen 6): {r.invariant_violated}\n{r.output[-2500:]}")
+        acc.add_tlc("MC_HierGen[MaxLen 6]", r)
+        if os.path.exists(r.out_path):
+            os.remove(r.out_path)
     trace = os.path.join(core.BUILD, "C12_hier_drive.ndjson")
     out = os.path.join(core.BUILD, "C12_hier_drive.report.json")
     core.run_vh(["drive-hier", "--n", "120" if tier == "quick" else "1500", "--trace", trace, "--out", out], timeout=3000)
